@@ -49,10 +49,21 @@ class PtVerifASTBuilder(CWithGNULibcASTBuilder):
         return [*super().symbol_manglers(), _mangle]
 
 
+class PtVerifCCompiler(CCompiler):
+    """loopy 2025.2 emits the preamble of its integer isnan helper as
+    `static inline static int isnani32(int32_t x)` (duplicate storage class,
+    and ahead of <stdint.h>): a loopy defect, repaired in the source text here."""
+
+    def build(self, name: str, code: str, *args: Any, **kwargs: Any) -> Any:
+        code = code.replace("static inline static int", "static inline int")
+        return super().build(name, code, *args, **kwargs)
+
+
 class PtVerifCTarget(ExecutableCTarget):
     def __init__(self) -> None:
-        super().__init__(compiler=CCompiler(
+        super().__init__(compiler=PtVerifCCompiler(
             cflags=["-std=c99", "-O1", "-ffp-contract=off", "-fPIC",
+                    "-include", "stdint.h", "-include", "stdbool.h",
                     "-include", "limits.h", "-include", "math.h",
                     "-include", "float.h"]))
 
